@@ -17,7 +17,7 @@ CFG = {"u8": ("BUintD8<1>", "u8"), "i8": ("BIntD8<1>", "i8"), "u16": ("BUintD8<2
        "i192": ("BInt<3>", "bit-level reference on the digits")}
 
 PANIC = [  # (regex on the method part, expected substring of the bnum panic message)
-    (r"by_zero", "zero"), (r"min_neg1", "with overflow"), (r"ilog", "integer logarithm must be"), (r"clamp", "min.le(&max)"),
+    (r"by_zero", "zero"), (r"min_neg1", "with overflow"), (r"ilog", "_log_"), (r"clamp", "assertion failed: min.le"),
     (r"^(bit|set_bit|power_of_two)$", "index out of bounds"),
     (r"next_power_of_two", "attempt to calculate next power of two with overflow"), (r"next_multiple_of", "with overflow"),
     (r"pow", "attempt to calculate power with overflow"), (r"mul", "attempt to multiply with overflow"),
@@ -199,6 +199,9 @@ for name in sorted(RES):
     kind = "axiom" if prop == "a1" else "must_panic" if kindtag == "mp" else "value"
     mode = mode or "dbg"
     modes = ["dbg", "rel"] if mode == "both" else [mode]
+    unmeasured = [md for md in modes if md not in RES[name]]
+    if unmeasured and len(unmeasured) < len(modes):      # written for both builds but measured in one only: list it for that build
+        modes = [md for md in modes if md in RES[name]]; mode = modes[0]
     expect = expect_panic_of(rest) if kind == "must_panic" else None
     ok, why, times = True, [], []
     for md in modes:
@@ -215,6 +218,8 @@ for name in sorted(RES):
          "mode": mode, "kind": kind, "est_s": est, "inputs": inputs_of(prop, cfg, rest, name), "fn_keys": keys(prop, cfg, rest)}
     if expect:
         e["expect_panic"] = expect
+    if unmeasured and len(modes) == 1 and name.endswith("_both"):
+        e["note"] = "written for both builds; the %s build was not measured within the time budget" % unmeasured[0]
     if not ok:
         e["expected"] = "fails"
         e["note"] = "; ".join(why)
@@ -227,6 +232,28 @@ for name in sorted(RES):
         s["quick"] += 1; s["tq"] += tsum
     else:
         s["thorough"] += 1; s["tt"] += tsum
+
+# harnesses that exist in the sources but have no measurement (CBMC budget exceeded / not run): registered as disabled
+import glob
+src_names = set()
+for fn in glob.glob(os.path.join(HERE, "src", "*.rs")):
+    for m in re.finditer(r"\b((?:c\d\d|a1)_[ui]\d+_[a-z0-9_]+)\b", open(fn).read()):
+        src_names.add(m.group(1))
+src_names.discard("a1_u16_div_rem_wide")   # mentioned in a comment only, not generated
+ndis = 0
+for name in sorted(src_names - set(RES)):
+    prop, cfg, rest, kindtag, mode = split(name)
+    kind = "axiom" if prop == "a1" else "must_panic" if kindtag == "mp" else "value"
+    e = {"name": name, "property": prop.upper(), "tier": "thorough", "config": ("%s (oracle: %s)" % CFG[cfg]) if cfg in CFG else cfg,
+         "mode": mode or "dbg", "kind": kind, "est_s": None, "inputs": inputs_of(prop, cfg, rest, name), "fn_keys": keys(prop, cfg, rest),
+         "disabled": True, "note": "not measured: the CBMC proof run did not finish within the time budget of this unit (16-bit multiplier/divider, or release-build run cut short); usable as counter-example finder, a time-out is 'undecided'"}
+    if kind == "must_panic":
+        e["expect_panic"] = expect_panic_of(rest)
+    entries.append(e); ndis += 1
+print("disabled (unmeasured) harnesses registered:", ndis)
+missing = sorted(set(RES) - src_names - {"c17_default"})
+if missing:
+    print("RESULTS WITHOUT SOURCE:", missing[:20])
 
 with open(os.path.join(HERE, "harnesses.json"), "w") as f:
     f.write("[\n" + ",\n".join(" " + json.dumps(e) for e in entries) + "\n]\n")
